@@ -65,6 +65,11 @@ func (v *BasicSeqnoValidator) validate(ctx context.Context, _ peer.ID, m *Messag
 	var seqno uint64
 	seqnoBytes := m.GetSeqno()
 	if len(seqnoBytes) > 0 {
+		// the sequence number is a 64-bit big-endian integer; anything else
+		// cannot be ordered (and would make Uint64 panic on remote input)
+		if len(seqnoBytes) != 8 {
+			return ValidationReject
+		}
 		seqno = binary.BigEndian.Uint64(seqnoBytes)
 	}
 
